@@ -318,6 +318,7 @@ static void gen_c15(uint64_t seed, uint64_t run, const std::string& tier, Plan& 
   p.prop = "C15"; p.seed = seed; p.run = run; p.tier = tier;
   p.knobs["envseed"] = (int64_t)(mix64(rs ^ 0x77) >> 1);
   model::GenOpts go; go.dup_keys = r.chance(1, 4); go.big_strings = true; go.max_str = (int)r.range(4, 70); go.key_alphabet = 5;
+  if (r.chance(1, 2)) { static const int fl[] = {13, 15, 33, 40, 65, 70, 97, 130, 200}; go.family_len = fl[r.below(9)]; }   // look-alike keys of one length
   size_t n = (size_t)r.range(2, tier == "thorough" ? 10 : 6);
   for (size_t i = 0; i < n; i++) {
     p.ops.emplace_back(); Op& op = p.ops.back();
